@@ -1235,6 +1235,52 @@ mod tests {
 pub mod verif_hooks {
     use super::*;
 
+    /// One direction pair of transport-mode cipher states, as the two ends of a completed handshake hold them.
+    pub struct Cipher(NoiseContext);
+
+    /// Run a complete Noise XX handshake in memory and return the (dialer, listener) transport ciphers.
+    pub fn cipher_pair() -> (Cipher, Cipher) {
+        let dialer_keys = Keypair::generate();
+        let listener_keys = Keypair::generate();
+        let mut dialer = NoiseContext::new(&dialer_keys, Role::Dialer).expect("noise context");
+        let mut listener = NoiseContext::new(&listener_keys, Role::Listener).expect("noise context");
+        let mut scratch = vec![0u8; 4096];
+
+        let first = dialer.first_message(Role::Dialer).expect("first message");
+        listener.read_message(&first[2..], &mut scratch).expect("listener reads e");
+        let second = listener.second_message().expect("second message");
+        dialer.read_message(&second[2..], &mut scratch).expect("dialer reads e, ee, s, es");
+        let third = dialer.second_message().expect("third message");
+        listener.read_message(&third[2..], &mut scratch).expect("listener reads s, se");
+
+        (
+            Cipher(dialer.into_transport().expect("transport mode")),
+            Cipher(listener.into_transport().expect("transport mode")),
+        )
+    }
+
+    /// The encrypted socket over `io`, as `handshake()` creates it.
+    pub fn socket<S: AsyncRead + AsyncWrite + Unpin>(
+        io: S,
+        cipher: Cipher,
+        max_read_ahead_factor: usize,
+        max_write_buffer_size: usize,
+    ) -> NoiseSocket<S> {
+        NoiseSocket::new(
+            io,
+            cipher.0,
+            max_read_ahead_factor,
+            max_write_buffer_size,
+            PeerId::random(),
+            HandshakeTransport::Tcp,
+        )
+    }
+
+    /// The carrier of a socket (to inspect what was put on the wire).
+    pub fn carrier<S: AsyncRead + AsyncWrite + Unpin>(socket: &mut NoiseSocket<S>) -> &mut S {
+        &mut socket.io
+    }
+
     /// The identity check of the handshake on an already decoded payload: the peer a secured connection
     /// would be reported for, if any.
     pub fn parse_and_verify(
